@@ -49,7 +49,7 @@ LaggingState(e) == IF E[e].prev = {} THEN {} ELSE StateBefore(MaxOf(E[e].prev))
 Blank == [kind |-> Kind, EM |-> E, F |-> [i \in Ids |-> NoFault], P |-> [i \in Ids |-> "returns"],
           al |-> {}, sl |-> {}, j |-> 0, e |-> 0, s |-> {}, sb |-> <<>>, av |-> FALSE, pm |-> "ok",
           fail |-> FALSE, ok |-> FALSE, auth |-> {}, state |-> {}, askmin |-> {}, askmax |-> {}, cls |-> <<>>,
-          altok |-> FALSE, altcls |-> <<>>]
+          altok |-> FALSE, altcls |-> <<>>, pv |-> "exact", tr |-> "none", cls1 |-> <<>>]
 
 GInit == Init /\ phase = "room" /\ sc = 0
 
@@ -133,10 +133,12 @@ PickChain ==
     \E e \in {N} \cup (IF N = Base THEN {1} ELSE {}) : \E R \in {ChainOf(E, {e}) \cup {e}} :
     \E dis \in {{x \in R : CanDisallow(x)}} :
     \E d \in FaultChoices(R, LAMBDA x : ChainApp(x, e, dis)) :
+    \* (how the provider answers one call: exactly what was asked, or the whole chain below it)
+    \E pv \in (IF Sim THEN {RandomElement(ProvModes)} ELSE ProvModes) :
        \E F \in {FOf(d)} : \E P \in {POf(d)} : \E EM \in {Mutated(F)} :
        \E ok \in {AuthChainOK(EM, F, P, e)} : \E reach \in {CitedBy(EM, ChainReach(EM, P, e))} :
-       /\ sc' = [Blank EXCEPT !.kind = "chain", !.EM = EM, !.F = F, !.P = P, !.e = e, !.ok = ok,
-                              !.askmin = IF ok THEN reach ELSE {}, !.askmax = reach]
+       /\ sc' = [Blank EXCEPT !.kind = "chain", !.EM = EM, !.F = F, !.P = P, !.e = e, !.ok = ok, !.pv = pv,
+                              !.askmin = IF ok THEN ChainAskMin(EM, P, pv, e) ELSE {}, !.askmax = reach]
        /\ phase' = "done"
 
 (***************************************************************************)
@@ -191,11 +193,34 @@ PickLoad ==
                               !.altcls = [e \in Ids |-> LoadClassCited(EM, F, P, loc, e, sb[e])]]
        /\ phase' = "done"
 
+(***************************************************************************)
+(* backfill: RequestBackfill over TWO servers that both answer with every  *)
+(* event of the room, the caller's event provider failing transiently:     *)
+(* while the first server's answer is verified every call errors (tr =     *)
+(* "errors") or returns nothing (tr = "nothing"); afterwards it behaves as *)
+(* P says.  cls1 / cls: the classes of the two rounds.                     *)
+(***************************************************************************)
+TransientModes == {"errors", "nothing"}
+
+PickBackfill ==
+    \E dis \in {{x \in Ids : CanDisallow(x)}} :
+    \E d \in FaultChoices(Ids, LAMBDA x : LoadApp(x, dis) \ {"dup", "sigcopy"}) :
+    \E tr \in (IF Sim THEN {RandomElement(TransientModes)} ELSE TransientModes) :
+       \E F \in {FOf(d)} : \E P \in {POf(d)} : \E EM \in {Mutated(F)} :
+       \E P1 \in {[i \in Ids |-> tr]} :
+       \E sb \in {[e \in Ids |-> StateBefore(e)]} :
+       \E loc \in {LocalOK(EM, F, P)} : \E loc1 \in {LocalOK(EM, F, P1)} :
+       /\ sc' = [Blank EXCEPT !.kind = "backfill", !.EM = EM, !.F = F, !.P = P, !.sb = sb, !.tr = tr,
+                              !.cls1 = [e \in Ids |-> LoadClass(EM, F, P1, loc1, e, sb[e])],
+                              !.cls = [e \in Ids |-> LoadClass(EM, F, P, loc, e, sb[e])]]
+       /\ phase' = "done"
+
 Pick == CASE Kind = "state" -> PickState
           [] Kind = "sendjoin" -> PickSendJoin
           [] Kind = "chain" -> PickChain
           [] Kind = "atstate" -> PickAtState
           [] Kind = "load" -> PickLoad
+          [] Kind = "backfill" -> PickBackfill
           \* every operation in one run (the per-version families of the quick tier)
           [] Kind = "all" -> PickState \/ PickSendJoin \/ PickChain \/ PickAtState \/ PickLoad
 
@@ -235,13 +260,25 @@ HonestAccepted ==
           [] sc.kind = "chain" -> sc.ok
           [] sc.kind = "atstate" -> (sc.pm = "ok" /\ sc.s = StateBefore(sc.e)) => sc.ok
           [] sc.kind = "load" -> \A e \in Ids : sc.sb[e] = StateBefore(e) => sc.cls[e] = "ok"
+          \* (a transient fault of the provider during the first round loses nothing)
+          [] sc.kind = "backfill" -> BackfillMust(<<sc.cls1, sc.cls>>) = Ids
 BadNeverVerifies ==
     Done =>
         CASE sc.kind = "chain" -> BadEvent(sc.F, sc.e) => ~sc.ok
           [] sc.kind = "atstate" -> (BadEvent(sc.F, sc.e) /\ ~sc.av /\ sc.s = StateBefore(sc.e)) => ~sc.ok
           [] sc.kind = "load" -> \A e \in Ids : BadEvent(sc.F, e) => sc.cls[e] \in {"invalid", "sig", "chain"}
+          [] sc.kind = "backfill" -> \A e \in Ids : BadEvent(sc.F, e) /\ sc.F[e] # "badsig" => e \notin BackfillMay(<<sc.cls1, sc.cls>>)
           [] OTHER -> TRUE
 AskBounds == Done => sc.askmin \subseteq sc.askmax
+\* "every fetched auth event": the events fetched are the same whichever call brought them (a provider answering
+\* with more than it was asked for changes nothing), so the verdict of AuthChainOK ranges over all of them
+FetchedWhicheverCall ==
+    Done /\ sc.kind = "chain" => Fetched(sc.EM, sc.P, sc.pv, {sc.e}, {sc.e}) = ChainReach(sc.EM, sc.P, sc.e)
+\* backfill: what must be returned may be returned; an event whose classes are "ok" in the second round is never lost
+BackfillBounds ==
+    Done /\ sc.kind = "backfill" =>
+        /\ BackfillMust(<<sc.cls1, sc.cls>>) \subseteq BackfillMay(<<sc.cls1, sc.cls>>)
+        /\ \A e \in Ids : sc.cls[e] = "ok" => e \in BackfillMust(<<sc.cls1, sc.cls>>)
 
 (***************************************************************************)
 (* Emission                                                                *)
@@ -255,5 +292,6 @@ Emit == Done => PrintT(ToJson(
     [kind |-> sc.kind, ver |-> Ver, events |-> [i \in Ids |-> EvJson(i)], al |-> sc.al, sl |-> sc.sl,
      j |-> sc.j, e |-> sc.e, s |-> sc.s, sb |-> sc.sb, av |-> sc.av, pm |-> sc.pm,
      fail |-> sc.fail, ok |-> sc.ok, auth |-> sc.auth, state |-> sc.state,
-     askmin |-> sc.askmin, askmax |-> sc.askmax, cls |-> sc.cls, altok |-> sc.altok, altcls |-> sc.altcls]))
+     askmin |-> sc.askmin, askmax |-> sc.askmax, cls |-> sc.cls, altok |-> sc.altok, altcls |-> sc.altcls,
+     pv |-> sc.pv, tr |-> sc.tr, cls1 |-> sc.cls1]))
 =============================================================================
